@@ -12,20 +12,9 @@ environment of the function's definition extended by the argument expressions.
 -/
 import UH.Proofs.NatSemMemo
 import UH.Proofs.NatSemPrim
+import UH.Model.ByNameEval
 namespace UH.ByName
 open UH BigStep Comp
-
-inductive TEnv where
-  | mk (funs : List (AST × TEnv)) (args : List (List (AST × TEnv)))
-
-def TEnv.funs : TEnv → List (AST × TEnv) | .mk f _ => f
-def TEnv.args : TEnv → List (List (AST × TEnv)) | .mk _ a => a
-instance : Inhabited TEnv := ⟨.mk [] []⟩
-
-inductive TVal where
-  | int (n : Int)
-  | bool (b : Bool)
-  | clo (body : AST) (env : TEnv)
 
 /-- call by name -/
 inductive BN : TEnv → AST → TVal → Prop
